@@ -75,9 +75,25 @@ fn scripted_error(c: &mut Case<'_>) -> CaseResult {
             e
         })));
     }
-    // through the SDK for one of a few operations (the error path is shared by all)
-    let which = c.t.below(4);
-    let sdk_err: Option<(Option<String>, Option<String>, Option<String>)> = block_on(async {
+    // through the SDK: for one of four operations with the SDK's view of the error compared as well, or (half of the
+    // cases) for any of the 96 operations with a minimal input - the error path is generated per operation, and
+    // CompleteMultipartUpload has one of its own (the error arrives inside a 200 keep-alive body)
+    let generic_op: Option<&str> = if c.t.bool() { Some(OPS[c.t.below(OPS.len())]) } else { None };
+    if let Some(op) = generic_op {
+        if crate::props::c01::KNOWN_UNREACHABLE.contains(&op) || crate::model::model().ops.get(op).is_none() {
+            return crate::engine::discard("operation not usable");
+        }
+        c.label(format!("op:{op}"));
+    }
+    let which = if generic_op.is_some() { 4 } else { c.t.below(4) };
+    let sdk_err: Option<(Option<String>, Option<String>, Option<String>)> = if let Some(op) = generic_op {
+        let mut empty = crate::tape::Tape::new(&[]);
+        let mut g = crate::dto::GenCx::new(&mut empty, crate::dto::Purpose::Sdk);
+        g.minimal = true;
+        block_on(crate::dto::drive_input(op, &mut g, &st.proxy));
+        None
+    } else {
+        block_on(async {
         use aws_sdk_s3::error::ProvideErrorMetadata;
         use aws_sdk_s3::operation::RequestId;
         macro_rules! meta {
@@ -94,7 +110,9 @@ fn scripted_error(c: &mut Case<'_>) -> CaseResult {
             2 => meta!(st.client.list_objects_v2().bucket("bucket").send().await),
             _ => meta!(st.client.delete_bucket().bucket("bucket").send().await),
         }
-    });
+        })
+    };
+    let keep_alive = generic_op == Some("CompleteMultipartUpload");
     let resp = st.wire.take_responses().into_iter().next();
     c.nontrivial();
     c.label(if custom { "code:custom" } else { "code:table" });
@@ -114,6 +132,10 @@ fn scripted_error(c: &mut Case<'_>) -> CaseResult {
     }
     if doc.request_id != request_id {
         return Err(c.fail("error-doc-request-id", format!("request id {request_id:?} rendered as {:?}", doc.request_id)));
+    }
+    if keep_alive {
+        // the status line (200) was sent before the backend answered: only the document is asserted
+        return Ok(());
     }
     // status: override, else one of the documented statuses
     match status {
@@ -156,7 +178,7 @@ fn scripted_error(c: &mut Case<'_>) -> CaseResult {
             // (aws-sdk-rust takes the request id from the x-amz-request-id header, not from the document: not asserted)
             let _ = sr;
         }
-    } else {
+    } else if generic_op.is_none() {
         return Err(c.fail("client-saw-success", format!("backend returned {code}, client saw success; wire status {}", resp.status)));
     }
     Ok(())
